@@ -51,6 +51,8 @@ class ThresholdCase(GradientCase):
         tot = ssum(we)
         for kind, n, out, off in (("obj", K, vals(fr.functions.objectives), 0), ("con", C, vals(fr.functions.constraints), K)):
             for k in range(n):
+                if kind == "obj" and self.obj_filt is not None and self.obj_filt[k] >= 0:
+                    continue  # filtered: weights in force are the filter's (C01/C05)
                 fx = [c[r, off + k] + ssum([A[r, off + k, i] * SR(Fraction(float(self.xv[i]))) for i in range(N)]) for r in range(R)]
                 spec = ssum([we[r] * fx[r] for r in range(R)]) / tot
                 props.append((f"function.{kind}{k}.mean_over_survivors", Implies(tot > 0, close(out[k], spec))))
@@ -63,15 +65,20 @@ class MetamorphicCase(Case):
     family = "failures/metamorphic"
 
     def __init__(self, cid, *, N, R, P, K=1, C=0, failed, estimators=("mean",), obj_est=None, filters=(), obj_filt=None,
-                 seed=0, mask=None, nan_col=0, perturbation_failures=(), weights=None):
+                 seed=0, mask=None, nan_col=0, perturbation_failures=(), weights=None, pmin=1, merge=False, failed_by_count=()):
         self.id = cid
         self.N, self.R, self.P, self.K, self.C = N, R, P, K, C
         self.failed = tuple(failed)
-        self.keep = [r for r in range(R) if not failed[r]]
+        self.pmin, self.merge, self.by_count = pmin, merge, tuple(failed_by_count)
+        # realizations in failed_by_count keep a valid unperturbed value but lose P-pmin+1 perturbations
+        self.keep = [r for r in range(R) if not failed[r] and r not in self.by_count]
         self.estimators, self.obj_est, self.filters, self.obj_filt = estimators, obj_est, filters, obj_filt
         self.mask, self.nan_col_ix = mask, nan_col
         self.weights = weights
         self.pfail = set(perturbation_failures)  # (r, p) rows of surviving realizations that fail too
+        for r in self.by_count:
+            for p_ in range(P - pmin + 1):
+                self.pfail.add((r, p_))
         rng = np.random.default_rng([seed, N, R, P, 5])
         self.design = np.round(rng.uniform(-1, 1, (R, P, N)) * 64) / 64
         if mask is not None:
@@ -80,13 +87,13 @@ class MetamorphicCase(Case):
                     self.design[..., j] = 0.0
         self.xv = np.round(rng.uniform(-1, 1, N) * 16) / 16
         common = dict(N=N, P=P, K=K, C=C, mask=mask, x0=list(self.xv), estimators=estimators, obj_est=obj_est,
-                      filters=filters, obj_filt=obj_filt, pmin=1)
+                      filters=filters, obj_filt=obj_filt, pmin=pmin, merge=merge)
         self.cfg_full = ens.ensemble_config(R=R, rmin=1, **common)
         self.cfg_red = ens.ensemble_config(R=len(self.keep), rmin=1, **common)
 
     def describe(self):
         return (f"N={self.N} R={self.R} P={self.P} K={self.K} C={self.C} failed={self.failed} est={self.estimators}/{self.obj_est} "
-                f"filters={[f['method'] for f in self.filters]}/{self.obj_filt} pfail={sorted(self.pfail)}")
+                f"filters={[f['method'] for f in self.filters]}/{self.obj_filt} pfail={sorted(self.pfail)} pmin={self.pmin} merge={self.merge} failed_by_count={self.by_count}")
 
     def inputs(self, env):
         R, K, C, N = self.R, self.K, self.C, self.N
@@ -137,6 +144,23 @@ class MetamorphicCase(Case):
         props = [("failed_flags_reported", SB(True))]
         rf = vals(ff.realizations.failed_realizations)
         props.append(("full.failed_flags", all_of(rf[r] == SB(bool(self.failed[r])) for r in range(self.R))))
+        rg = vals(gf.realizations.failed_realizations)
+        props.append(("full.gradient_failed_flags", all_of(rg[r] == SB(bool(self.failed[r]) or r in self.by_count) for r in range(self.R))))
+        if self.by_count:
+            # function values still use the realizations that only lost perturbations: compare gradients only
+            props.append(("functions_reported", SB(ff.functions is not None)))
+            if gf.gradients is None or gr.gradients is None:
+                props.append(("both_report_or_neither", SB((gf.gradients is None) == (gr.gradients is None))))
+                return props
+            for nm in ("objectives", "constraints", "weighted_objective"):
+                a_, b_ = vals(getattr(gf.gradients, nm)), vals(getattr(gr.gradients, nm))
+                if a_ is None:
+                    continue
+                a_, b_ = np.asarray(a_, dtype=object), np.asarray(b_, dtype=object)
+                for idx in np.ndindex(a_.shape):
+                    props.append((f"gradient.{nm}{list(idx)}.same_as_reduced_ensemble",
+                                  Or(And(isnan(a_[idx]), isnan(b_[idx])), gclose(a_[idx], b_[idx], SR(Fraction(SL))))))
+            return props
         if ff.functions is None or fr.functions is None or gf.gradients is None or gr.gradients is None:
             props.append(("both_report_or_neither", SB((ff.functions is None) == (fr.functions is None)
                                                        and (gf.gradients is None) == (gr.gradients is None))))
@@ -301,6 +325,12 @@ def build_cases(tier):
         weights=(Fraction(1, 2), Fraction(1, 8), Fraction(3, 8)))
     add(MetamorphicCase, N=2, R=3, P=2, K=2, failed=(False, False, True), filters=(sort_filter(0, 0),), obj_filt=(0, -1), seed=seed)
     add(MetamorphicCase, N=2, R=3, P=2, failed=(False, True, False), filters=(cvar_filter(0.75),), obj_filt=(0,), seed=seed, nan_col=0)
+    # realizations that fail only because too few of their perturbations succeed (per-realization and merged)
+    add(MetamorphicCase, N=2, R=3, P=3, failed=(False, False, False), failed_by_count=(1,), pmin=2, seed=seed)
+    add(MetamorphicCase, N=2, R=3, P=4, failed=(False, False, False), failed_by_count=(0,), pmin=3, merge=True, seed=seed)
+    add(MetamorphicCase, N=2, R=3, P=3, failed=(True, False, False), failed_by_count=(2,), pmin=3, merge=True, seed=seed)
+    # functions first, then a gradient-only request at the same point, with a filter that zeroes realizations
+    add(ThresholdCase, N=1, R=3, P=1, K=1, nan_cols=(0,), seed=seed, split=True, filters=(sort_filter(0, 1),), obj_filt=(0,))
     if tier == "thorough":
         for failed in itertools.product([False, True], repeat=4):
             if all(failed) or not any(failed):
